@@ -88,16 +88,29 @@ def stack_schema(fi, edge=False):
 
 
 def lambda_texts(fi, edge=False):
+    """(role, normalised body) of the lambdas a function assigns; role 'f' = the one handed on as filter_fn, 'froot' = the others."""
     out = []
+    passed = set()
+    for c in ast.walk(fi.node):
+        if isinstance(c, ast.Call):
+            v = get_kwarg(c, "filter_fn")
+            if v is not None and isinstance(v, ast.Name):
+                passed.add(v.id)
+    names = {}
+    for n in walk_no_nested(fi.node):
+        if isinstance(n, ast.Assign) and isinstance(n.value, ast.Lambda):
+            names[norm(n.targets[0])] = "f" if norm(n.targets[0]) in passed else "froot"
     for n in walk_no_nested(fi.node):
         if isinstance(n, ast.Assign) and isinstance(n.value, ast.Lambda):
             lam = n.value
             p = lam.args.args[0].arg if lam.args.args else "x"
             body = norm(lam.body)
             body = re.sub(r"\b%s\b" % re.escape(p), "x", body)
+            for nm, role in names.items():
+                body = re.sub(r"\b%s\b" % re.escape(nm), role, body)
             if edge:
                 body = body.replace("x._head_node.", "x.")
-            out.append((norm(n.targets[0]), body))
+            out.append((names[norm(n.targets[0])], body))
     return sorted(out)
 
 
@@ -145,7 +158,9 @@ def run(index, rep, tier):
                   "%s composes different filters from %s: edge %s / node %s" % (ef.qualname, nf.qualname, el, nl))
         for f, base in ((nf, nbase), (ef, ebase)):
             rets = [n for n in walk_no_nested(f.node) if isinstance(n, ast.Return)]
-            ok = len(rets) == 1 and isinstance(rets[0].value, ast.Call) and call_name(rets[0].value) == base and norm(get_kwarg(rets[0].value, "filter_fn")) == "f"
+            fv = get_kwarg(rets[0].value, "filter_fn") if len(rets) == 1 and isinstance(rets[0].value, ast.Call) else None
+            ok = len(rets) == 1 and isinstance(rets[0].value, ast.Call) and call_name(rets[0].value) == base and isinstance(fv, ast.Name) and \
+                any(isinstance(a, ast.Assign) and norm(a.targets[0]) == fv.id and isinstance(a.value, ast.Lambda) for a in walk_no_nested(f.node))
             rep.check(ok, "R15.1", f.qualname, "delegates to %s(filter_fn=f)" % base, fn_where(f), "%s delegates to %s with the composed filter" % (f.name, base),
                       "%s no longer returns %s(filter_fn=f)" % (f.qualname, base))
         # the internal filter really selects non-leaves and honours exclude_seed
@@ -169,7 +184,7 @@ def run(index, rep, tier):
         f = index.function(TREE + "." + name)
         loops = [l for l in walk_no_nested(f.node) if isinstance(l, ast.For)]
         ok = len(loops) == 1 and isinstance(loops[0].iter, ast.Call) and call_name(loops[0].iter) == base and norm(loops[0].iter.func.value) == "self.seed_node" \
-            and norm(get_kwarg(loops[0].iter, "filter_fn")) == "f"
+            and isinstance(get_kwarg(loops[0].iter, "filter_fn"), ast.Name)
         ys = [n for n in walk_no_nested(f.node) if isinstance(n, ast.Yield)]
         ok = ok and len(ys) == 1 and norm(ys[0].value) in (norm(loops[0].target) + ".edge", norm(loops[0].target) + "._edge")
         lam = [b for nm, b in lambda_texts(f) if nm == "f"]
